@@ -1,2 +1,113 @@
-(* C07 — placeholder while the proofs are being written. *)
-From SV Require Import C07.Model.
+(* C07 — consumer-group sessions follow the documented life-cycle and resume from commits.
+   Property statements only; each is closed by [exact] of a lemma proved in coq/C07/Proofs*.v.
+   [trace cf w ins] is the event sequence of the member model (C07/Model.v) under the input list [ins]:
+   coordinator verdicts, handler behaviours, cancellation / Close, timer expiry and the interleaving of the claim
+   goroutines are all inputs, so "forall ins" is "for every coordinator script, handler behaviour and schedule",
+   over any number of successive Consume calls.  The acceptors [hook_ok] / [identity_ok] are in C07/Spec.v. *)
+From Coq Require Import List ZArith String.
+From SV Require Import C07.Model C07.Spec C07.Corr C07.ProofsHook C07.ProofsId C07.ProofsOffsets C07.ProofsEnds C07.ProofsCorr.
+From SV Require Import Gen.GoInt Gen.DecTypes Gen.DecC07.
+Import ListNotations.
+Open Scope Z_scope.
+
+(* Setup once before any ConsumeClaim; at most one ConsumeClaim per assigned partition, exactly one unless the
+   session was already ending when the claim goroutine started or the claim could not be created; records only
+   inside ConsumeClaim; Cleanup once, after every started ConsumeClaim returned and only when the session is
+   ending; final commit after Cleanup; Consume returns last. *)
+Theorem c07_hook_order : forall cf store log ins, hook_ok (trace cf (init_world store log) ins).
+Proof. exact hook_order_holds. Qed.
+Print Assumptions c07_hook_order.
+
+(* Every sync / heartbeat / commit carries the member id and generation issued by the join that opened the session;
+   every join carries the id the member holds; a fencing answer (join or sync) clears it, so the next join is
+   made with a fresh identity; LeaveGroup carries the held id. *)
+Theorem c07_identity : forall cf store log ins, identity_ok (trace cf (init_world store log) ins).
+Proof. exact identity_holds. Qed.
+Print Assumptions c07_identity.
+
+(* Each of the five causes ends the session: the session context becomes done (and stays done, c07_ctx_stable),
+   which wakes Consume up into release. *)
+Theorem c07_session_ends : forall cf w,
+  w_phase w = PRunning ->
+  s_ctx (fst (step cf w ICancel)) = true /\
+  (s_hb w = true -> forall v, v = HRebalance \/ v = HUnknownMember \/ v = HIllegalGen -> s_ctx (fst (step cf w (IHeartbeat v))) = true) /\
+  (forall p, In (EvClaimReturn p) (snd (step cf w (IClaimReturn p))) -> s_ctx (fst (step cf w (IClaimReturn p))) = true) /\
+  (forall p b, (In (EvClaimSkip p) (snd (step cf w (IClaimGo p b))) \/ In (EvClaimFail p) (snd (step cf w (IClaimGo p b)))) ->
+               s_ctx (fst (step cf w (IClaimGo p b))) = true) /\
+  (ending (fst (step cf w IClose)) = true /\ s_ctx (fst (step cf (fst (step cf w IClose)) IWatch)) = true) /\
+  (forall w', w_phase w' = PRunning -> s_ctx w' = true -> w_phase (fst (step cf w' IRelease)) = PReleasing).
+Proof. exact session_ends_holds. Qed.
+Print Assumptions c07_session_ends.
+
+Theorem c07_ctx_stable : forall cf w i, s_ctx w = true -> w_phase w <> PIdle -> s_ctx (fst (step cf w i)) = true.
+Proof. exact ctx_stable. Qed.
+Print Assumptions c07_ctx_stable.
+
+(* In every reachable state, a ConsumeClaim that starts has InitialOffset = the offset the coordinator stores for the
+   partition if that lies inside the log, else Consumer.Offsets.Initial, and its first record is that offset
+   resolved against the log. *)
+Theorem c07_claim_start : forall cf store log ins p created o,
+  valid_initial cf ->
+  let w := final cf (init_world store log) ins in
+  In (EvClaimStart p o) (snd (step cf w (IClaimGo p created))) ->
+  let '(lo, hi) := log_get (w_log w) p in
+  o = start_spec cf (committed (w_store w) p) lo hi /\
+  exists c, claim_find (s_claims (fst (step cf w (IClaimGo p created)))) p = Some c /\ cl_state c = CRunning /\
+            cl_start c = resolve o lo hi /\ cl_consumed c = 0%nat.
+Proof. exact claim_start_holds. Qed.
+Print Assumptions c07_claim_start.
+
+(* Across any number of sessions: whatever lies between the group's position before the first session and the
+   offset the coordinator stores now has been delivered to a handler.  With c07_claim_start (every session starts
+   at the stored offset) no record is skipped, and what was not committed is delivered again.
+   [wf0]: offsets are non-negative, the initially committed offset lies inside the log, and without one
+   Consumer.Offsets.Initial is OffsetOldest (with OffsetNewest and no commit, records may be skipped by design). *)
+Theorem c07_no_skip : forall cf store log p, wf0 cf store log p -> forall ins c o,
+  let '(w, tr) := run cf (init_world store log) ins in
+  store_get (w_store w) p = Some c -> base store log p <= o < c -> In (EvDeliver p o) tr.
+Proof. exact no_skip_holds. Qed.
+Print Assumptions c07_no_skip.
+
+(* The correspondence check evaluates exactly [Model.run]. *)
+Theorem c07_corr_runs_model : forall cf lv0 c w, let '(ins, w', tr) := run_call cf lv0 c w in run cf w ins = (w', tr).
+Proof. exact run_call_is_run. Qed.
+Print Assumptions c07_corr_runs_model.
+
+(* Ties to the error-class switches regenerated from consumer_group.go (coq/Gen/DecC07.v). *)
+Theorem c07_tie_join : forall cf w r v code mid jmid,
+  w_phase w = PJoin r JJoin -> jv_code v code ->
+  let '(w', evs) := step cf w (IJoin v) in
+  ns_agrees w (snd (join_error_class mid r code jmid))
+    (fun w' => exists m g l, v = JOk m g l /\ w_phase w' = PJoin r (JSync m g l) /\ w_member w' = m) w' evs /\
+  match v with
+  | JOk _ _ _ => fst (join_error_class mid r code jmid) = jmid
+  | JUnknownMember | JIllegalGen => fst (join_error_class mid r code jmid) = ""%string
+  | _ => fst (join_error_class mid r code jmid) = mid
+  end.
+Proof. exact tie_join. Qed.
+Print Assumptions c07_tie_join.
+
+Theorem c07_tie_sync : forall cf w r m g l v code mid,
+  w_phase w = PJoin r (JSync m g l) -> sv_code v code ->
+  let '(w', evs) := step cf w (ISync v) in
+  ns_agrees w (snd (sync_error_class mid r code))
+    (fun w' => exists plan, v = SOk plan /\ s_member w' = m /\ s_gen w' = g /\ s_hb w' = true /\ In (EvAssigned plan) evs) w' evs /\
+  match v with
+  | SUnknownMember | SIllegalGen => fst (sync_error_class mid r code) = ""%string
+  | _ => fst (sync_error_class mid r code) = mid
+  end.
+Proof. exact tie_sync. Qed.
+Print Assumptions c07_tie_sync.
+
+Theorem c07_tie_heartbeat : forall cf w v code,
+  s_hb w = true -> hv_code v code ->
+  let '(r', acts, ex) := heartbeat_error_class (s_hbretries w) code (c_hb_retries cf) in
+  let w' := fst (step cf w (IHeartbeat v)) in
+  match ex with
+  | ExFall => s_hb w' = true /\ s_hbretries w' = r' /\ s_ctx w' = s_ctx w
+  | ExReturn _ => s_hb w' = false /\ s_ctx w' = true /\
+                  (acts = [] <-> (v = HRebalance \/ v = HUnknownMember \/ v = HIllegalGen))
+  | _ => False
+  end.
+Proof. exact tie_heartbeat. Qed.
+Print Assumptions c07_tie_heartbeat.
